@@ -5,6 +5,9 @@
     hashseq  <alg> | preset <n> | upd <hex> | … | fin <hex> [bitlen]
                                                                streaming: `digest,bitcnt` after every upd, digest after fin
     hashseqc <alg> | …same steps…                              code<->model only: `digest,padflag,bitcnt,padcnt` after every step
+    hashcalls <alg> | …same steps, and `call <hex> <bitlen|None>` = h(M,bitlen)…
+                                                               ONE object for the whole line: the outcome of every `call` step;
+                                                               spec = the standard's digest of each called message alone
     hmac <alg> <key hex> <msg hex>                             HMAC(h,key)(msg)
     hmacseq <alg> <msg hex> <key1 hex> <key2 hex> …            one object, setkey(k_i) then call(msg) for each key
     hmacgen <B> <D> <key hex> <msg hex>                        HMAC over the toy hash of block size B bits, D output bytes
@@ -44,12 +47,14 @@ inductive Step
   | preset (n : Nat)
   | upd (m : List Nat)
   | fin (m : List Nat) (bitlen : Option Nat)
+  | call (m : List Nat) (bitlen : Option Nat)
 
 def parseStep? : List String → Option Step
   | ["preset", n] => (parseNat? n).map .preset
   | ["upd", x] => (parseBytes? x).map .upd
   | ["fin", x] => (parseBytes? x).map (.fin · none)
   | ["fin", x, l] => do let x ← parseBytes? x; let l ← parseOptNat? l; pure (.fin x l)
+  | ["call", x, l] => do let x ← parseBytes? x; let l ← parseOptNat? l; pure (.call x l)
   | _ => none
 
 def splitBar (toks : List String) : List (List String) :=
@@ -76,6 +81,19 @@ def modelSeq (c : HashCore) (full : Bool) : HashObj → List Step → List Strin
   | o, .fin m l :: rest, acc =>
     let (o', r) := c.update o m l true
     modelSeq c full o' rest (fmtState full r o'.pad true :: acc)
+  | o, .call m l :: rest, acc =>
+    let (o', r) := c.call o m l
+    modelSeq c full o' rest (fmtState full r o'.pad true :: acc)
+
+/-- `hashcalls`: the model object threaded through the steps, the outcome of every `call` step -/
+def modelCalls (c : HashCore) : HashObj → List Step → List String → List String
+  | _, [], acc => acc.reverse
+  | o, .preset n :: rest, acc => modelCalls c { o with pad := { o.pad with bitcnt := n } } rest acc
+  | o, .upd m :: rest, acc => modelCalls c (c.update o m none false).1 rest acc
+  | o, .fin m l :: rest, acc => modelCalls c (c.update o m l true).1 rest acc
+  | o, .call m l :: rest, acc =>
+    let (o', r) := c.call o m l
+    modelCalls c o' rest (fmtE fmtBytes r :: acc)
 
 /-- spec side of a streaming line: defined when the line is `[preset n] upd* fin` with block-aligned pieces and a
     block-aligned preset; the intermediate values are the serialised chaining values of the standard's iteration -/
@@ -96,6 +114,7 @@ def specSeq {σ} (h : Spec.MDHash σ) (steps : List Step) : Option (List String)
           if 0 < l ∧ l ≤ 8 * m.length then some (Spec.takeBits l (toSpecBytes m)) else none
       bits?.map fun bits => (fmtSpec (h.hashFrom s done bits) :: acc).reverse
     | .fin _ _ :: _, _ => none
+    | .call _ _ :: _, _ => none
   match steps with
   | .preset n :: rest => if n % B ≠ 0 then none else go h.init n rest ["-"]
   | _ => go h.init 0 steps []
@@ -150,6 +169,15 @@ def handle : Handler := fun op args =>
         | .error _ => "ERR"
         | .ok c => ";".intercalate (modelSeq c true c.initstate steps [])
       pure (model, "-")
+  | "hashcalls", a :: "|" :: rest => do
+      let (ma, sa) ← parseAlg? a
+      let steps ← (splitBar rest).mapM parseStep?
+      let model := match ma.new with
+        | .error _ => "ERR"
+        | .ok c => ";".intercalate (modelCalls c c.initstate steps [])
+      -- the standard knows nothing of objects: every call is the digest of its own message
+      let specs := steps.filterMap fun | .call m l => some (specHash sa m l) | _ => none
+      pure (model, if specs.contains "-" then "-" else ";".intercalate specs)
   | "hmac", [a, k, m] => do
       let (ma, sa) ← parseAlg? a; let k ← parseBytes? k; let m ← parseBytes? m
       pure (fmtE fmtBytes (Hmac.hmac (modelHashFn ma) (8 * ma.blocklen) k m),
